@@ -3,6 +3,7 @@ package props
 import (
 	"encoding/json"
 	"fmt"
+	"os"
 	"sort"
 	"strconv"
 	"strings"
@@ -24,7 +25,7 @@ func init() {
 		Rule: "E-SEQ: breadth-first search over presence histories (connect 1.2.3/1.5 style, agree, set-user-info, privilege change, disconnect, private message, invitation, info request, kick) of 3 clients plus a probe, " +
 			"each history replayed on a fresh real server; states deduplicated by a canonical snapshot (user list with ids ranked, per-slot status); the same histories shifted across the 65,536-connection boundary; " +
 			"plus an E-SCHED harness for two simultaneous connects",
-		Assumptions: []string{"3 client slots + 1 probe; depth as reported; the re-ordering processOutbox allows is not explored for roster convergence (default schedule; the quantifier has no schedules)"},
+		Assumptions:    []string{"3 client slots + 1 probe; depth as reported; the re-ordering processOutbox allows is not explored for roster convergence (default schedule; the quantifier has no schedules)"},
 		Run:            runC13,
 		Replay:         replayC13,
 		MinOutcomes:    20,
@@ -656,7 +657,47 @@ func c13LeaveJoin() (out explore.SchedOutcome) {
 	return out
 }
 
+// c13Full: all 65,535 ids are held by connected users and one more connection registers: the
+// registration returns, and no two registered users share an id (the extra one cannot get one).
+func c13Full(w *explore.Worker) {
+	w.Eval()
+	mgr := hotline.NewMemClientMgr()
+	for i := 0; i < 65535; i++ {
+		mgr.Add(&hotline.ClientConn{})
+	}
+	extra := &hotline.ClientConn{}
+	done := make(chan struct{})
+	go func() { mgr.Add(extra); close(done) }()
+	replay := explore.SeqReplay{Kind: "history", Harness: "C13full", History: []string{"65535 connections stay", "one more registers"}}
+	select {
+	case <-done:
+	case <-time.After(60 * time.Second): // generous: the registration scans at most 65,536 ids
+		w.Violation("C13/ids/registration-never-returns-when-all-ids-are-in-use", "with 65,535 users connected, registering one more connection did not return within 60 s (it holds the client table's lock: the whole server is wedged)", 1, replay)
+		// the registering goroutine keeps spinning inside instrumented code: this worker cannot go on
+		w.Cap("a worker was ended after the full-table scenario hung; the rest of its share was not explored")
+		if p := os.Getenv("VERIF_WORKER_OUT"); p != "" {
+			_ = w.WriteResult(p)
+			os.Exit(0)
+		}
+		return
+	}
+	seen := map[[2]byte]int{}
+	for _, c := range mgr.List() {
+		seen[c.ID]++
+	}
+	for id, n := range seen {
+		if n > 1 || id == [2]byte{} {
+			w.Violation("C13/ids/new-connection-got-an-id-already-in-use", fmt.Sprintf("with all ids in use: id %x is held by %d registered connections", id, n), 1, replay)
+			return
+		}
+	}
+	w.Outcome(fmt.Sprintf("full table: extra id %x, %d registered", extra.ID, len(seen)))
+}
+
 func runC13(w *explore.Worker) {
+	if w.Mine(3) {
+		c13Full(w)
+	}
 	explore.ExploreSchedules(w, explore.SchedConfig{Harness: "C13leavejoin", Params: "", Bound: map[bool]int{false: 1, true: 2}[w.Thorough], FreeCost: 1, MaxSteps: 20000, Suspend: true}, c13LeaveJoin)
 	depth := 5
 	wrapDepth := 2
@@ -675,6 +716,11 @@ func runC13(w *explore.Worker) {
 }
 
 func replayC13(w *explore.Worker, raw json.RawMessage) {
+	var fr explore.SeqReplay
+	if json.Unmarshal(raw, &fr) == nil && fr.Harness == "C13full" {
+		c13Full(w)
+		return
+	}
 	var sr explore.SchedReplay
 	if json.Unmarshal(raw, &sr) == nil && sr.Kind == "schedule" {
 		body := c13Concurrent
